@@ -5,12 +5,23 @@
 # re-run the checks on the unchanged tree so that evidence/*.json describe the unchanged tree.
 cd /verif
 OUT=seeded/FINALPASS.md
-echo "# Final pass on /repo itself (tools/finalpass.sh), /repo HEAD $(git -C /repo log -1 --format=%h)" > $OUT
-echo "" >> $OUT
+# usage: finalpass.sh            (all changes, rewrites the file)
+#        finalpass.sh -a REGEX   (only names matching REGEX, appended as a new section)
+if [ "${1:-}" = "-a" ]; then
+  SEL="$2"
+  echo "" >> $OUT
+  echo "## Later additions, /repo HEAD $(git -C /repo log -1 --format=%h)" >> $OUT
+  echo "" >> $OUT
+else
+  SEL="."
+  echo "# Final pass on /repo itself (tools/finalpass.sh), /repo HEAD $(git -C /repo log -1 --format=%h)" > $OUT
+  echo "" >> $OUT
+fi
 echo "| change | check | exit | verdict |" >> $OUT
 echo "|---|---|---|---|" >> $OUT
 for d in seeded/*/; do
   n=$(basename $d)
+  echo "$n" | grep -Eq "$SEL" || continue
   [ -f $d/meta.json ] || continue
   id=$(python3 -c "import json;print(json.load(open('$d/meta.json'))['breaks'])")
   if ! git -C /repo apply --check /verif/$d/patch.diff 2>/dev/null; then echo "| $n | $id | - | patch does not apply |" >> $OUT; continue; fi
